@@ -87,7 +87,7 @@ extern "C" int harness()
     }
     record_pre(pre);
     __vf_set_now(now);
-    range_vs_singles(c1, c2, RMETHOD, e, RLEN, e[0].a, e[0].pk);
+    range_vs_singles(c1, c2, RMETHOD, e, RLEN, e[0].a, e[0].pk, pre, now);
     last_now = now;
     VF_P(0, 3, inv(c1));
     VF_REACH(1);
